@@ -48,6 +48,15 @@ func c06Judge(k c06Case) *vlib.Failure {
 	}
 	suite := suiteFor(k.Cfg)
 	want := observeBoth(m1, suite)
+	// what wrapped handlers do to the header slices they can reach is their own request's business: the middleware and
+	// its Config() must be as before
+	hs := m1.Wrap(scribbler{})
+	for _, r := range suite {
+		hs.ServeHTTP(vlib.NewRec(), r.HTTP())
+	}
+	if i := firstDiff(want, observeOnOff(m1, suite)); i >= 0 {
+		return vlib.Failf("after the suite was served once with a handler that overwrites in place the header slices it can reach, request #%d (%s, debug=%t) is answered differently", i%len(suite), suite[i%len(suite)], i >= len(suite))
+	}
 	c1 := m1.Config()
 	if c1 == nil {
 		return vlib.Failf("Config() of a configured middleware is nil")
